@@ -681,6 +681,9 @@ func (app *App) methodInt(s string) int {
 }
 
 func (app *App) method(methodInt int) string {
+	if methodInt < 0 || methodInt >= len(app.config.RequestMethods) {
+		return "" // the request method is not one of the configured methods
+	}
 	return app.config.RequestMethods[methodInt]
 }
 
